@@ -12,8 +12,10 @@ TEXT = {
     "C01": ("Theorem C01_constructor (Coq, induction on the type expression): for EVERY well-formed type (arbitrary nesting, "
             "every length/limit < 2^64) and EVERY well-formed value the constructor's backing has root = Spec.htr "
             "(naive 'pad to 2^d and hash pairwise' merkleisation, mix-ins); fill_to_contents / fill_to_length / get_depth "
-            "proved against the spec; any CRep representation (zero summaries or expanded zeros) has the same root. Other "
-            "routes (decode, from_obj) tied by correspondence.",
+            "proved against the spec; any representation (zero summaries or expanded zeros) has the same root. Every route "
+            "the property lists is a theorem on the model: decoding (C01_decode_route / _any), object import "
+            "(C01_import_route), default (C01_default_route), mutation (C01_mutation_route + C05_cmd_on_chain). The Python "
+            "classes are tied to the model by the correspondence (five routes per value).",
             "Coq proof by induction on ty + CRep invariant; vm_compute correspondence", "5 (C01)"),
     "C02": ("Theorem C02_constructed (full statement): for EVERY type (uintN, boolean, bit/byte vectors and lists, packed and "
             "composite vectors/lists, containers, unions, any nesting) and every well-formed value, the backing tree the "
